@@ -385,3 +385,56 @@ theorem SourceTie_C04_mentions (c : GscribModel.Transform.Core) (b : B) (rapid :
       ∀ ax, (w.get ax).isSome ↔ ((req.get ax).isSome ∨
         (c.A.apply c.axes.resolve).get ax ≠ (c.A.apply (c.go rapid req).1.axes.resolve).get ax) :=
   ⟨(c.transformMove req).1, (MotionTie_go_xf c b rapid req h hax hrel hh hb).2.2, fun ax => C04_mentions c rapid req ax⟩
+
+namespace GscribModel.MotionTie
+/-- a controller for the output of a transformed builder that reads nothing but instruction texts and X/Y/Z words - the position
+    machine of `Model/Transform.lean` in the vocabulary the translated source writes -/
+def xfLineExec (m : GscribModel.Transform.Machine) (l : Line) : GscribModel.Transform.Machine :=
+  let cs := l.1
+  let w := l.2.1
+  if cs.contains "G90" then { m with rel := false }
+  else if cs.contains "G91" then { m with rel := true }
+  else if cs.contains "G0" || cs.contains "G1" then
+    if m.rel then { m with pos := ⟨m.pos.x + w.x.getD 0, m.pos.y + w.y.getD 0, m.pos.z + w.z.getD 0⟩ }
+    else { m with pos := ⟨w.x.getD m.pos.x, w.y.getD m.pos.y, w.z.getD m.pos.z⟩ }
+  else if cs.contains "G92" then { m with pos := ⟨w.x.getD m.pos.x, w.y.getD m.pos.y, w.z.getD m.pos.z⟩ }
+  else m
+
+theorem xfLineExec_view (m : GscribModel.Transform.Machine) (s : GscribModel.Transform.Stmt) :
+    xfLineExec m (stmtView s) = GscribModel.Transform.Machine.exec m s := by
+  cases s with
+  | mode r => cases r <;> simp [xfLineExec, stmtView, GscribModel.Transform.Machine.exec]
+  | go r w => cases r <;> simp [xfLineExec, stmtView, GscribModel.Transform.Machine.exec, GscribModel.PointTie.ofT]
+  | set w => simp [xfLineExec, stmtView, GscribModel.Transform.Machine.exec, GscribModel.PointTie.ofT]
+
+theorem xfLineExec_run (ss : List GscribModel.Transform.Stmt) (m : GscribModel.Transform.Machine) :
+    (ss.map stmtView).foldl xfLineExec m = ss.foldl GscribModel.Transform.Machine.exec m := by
+  induction ss generalizing m with
+  | nil => rfl
+  | cons s ss ih => simp only [List.map_cons, List.foldl_cons, xfLineExec_view, ih]
+end GscribModel.MotionTie
+
+open GscribModel.MotionTie GscribModel.PointTie in
+/-- **C04 (the machine stays on the image of the tracked position) for the translated source**: a controller that reads only texts
+    and X/Y/Z words, at `A·tracked` and in the builder's distance mode, is at `A·(new tracked)` after executing what the translated
+    `move()` / `rapid()` wrote - for any transformer state, any partial-axis request, both distance modes. -/
+theorem SourceTie_C04_machine (c : GscribModel.Transform.Core) (b : B) (rapid : Bool) (req : GscribModel.Transform.Pt) (h : Rat)
+    (hax : b.axes = ofT c.axes) (hrel : b.rel = c.rel) (hh : b.hooks = []) (hb : b.bounds.axes = none)
+    (m : GscribModel.Transform.Machine) (hpos : m.pos = c.A.apply c.axes.resolve) (hm : m.rel = c.rel) :
+    ((if rapid then GCodeCore.rapid_T (xfOf c.tr) (absB b) (ofT req) [] h else GCodeCore.move_T (xfOf c.tr) (absB b) (ofT req) [] h).1.out.map conv).foldl
+        xfLineExec m
+      = ⟨(c.go rapid req).1.A.apply (c.go rapid req).1.axes.resolve, (c.go rapid req).1.rel⟩ := by
+  rw [MotionTie_go_stmt_xf c b rapid req h hax hrel hh hb, xfLineExec_run]
+  exact (C04_invariant c m rapid req hpos hm).1
+
+open GscribModel.MotionTie GscribModel.PointTie in
+/-- **C04 (bypass moves) for the translated source**: the same controller reading what the translated `move_absolute()` /
+    `rapid_absolute()` wrote ends on its old position with the requested coordinates replaced, back in the builder's distance mode -/
+theorem SourceTie_C04_bypass (c : GscribModel.Transform.Core) (b : B) (rapid : Bool) (req : GscribModel.Transform.Pt) (h : Rat)
+    (hax : b.axes = ofT c.axes) (hrel : b.rel = c.rel) (hsync : b.srel = b.rel) (hh : b.hooks = []) (hb : b.bounds.axes = none)
+    (m : GscribModel.Transform.Machine) (hm : m.rel = c.rel) :
+    ((if rapid then GCodeBuilder.rapid_absolute (absB b) (ofT req) [] h else GCodeBuilder.move_absolute (absB b) (ofT req) [] h).1.out.map conv).foldl
+        xfLineExec m
+      = ⟨m.pos.replace req, c.rel⟩ := by
+  rw [(MotionTie_goabs_xf c b rapid req h hax hrel hsync hh hb).2.2, xfLineExec_run]
+  exact C04_bypass_machine c m rapid req hm
